@@ -168,7 +168,8 @@ def gram_count(nbytes, code, curt, size):
 
 
 def layout(code, curt, size):
-    """(zeroth body bytes, non-zeroth body bytes) measured with the real rend, or ('fail', repr) when rend raises."""
+    """(zeroth body bytes, non-zeroth body bytes, shortest memo rend renders as one gram) measured with the
+    real rend, or ('fail', reason, None) when rend cannot segment anything at this configuration."""
     key = (code, curt, size)
     if key in _LAYOUT:
         return _LAYOUT[key]
@@ -190,24 +191,34 @@ def layout(code, curt, size):
                 hi = mid - 1
         return lo
     try:
-        if gram_count(1, code, curt, size) != 1:
-            res = ("fail", "a 1-byte memo is not rendered as one gram")
+        # smallest memo length the real rend handles as ONE gram (1 on a correct tree)
+        first = None
+        err = None
+        for L0 in range(1, 17):
+            try:
+                if gram_count(L0, code, curt, size) == 1:
+                    first = L0
+                    break
+            except Exception as ex:
+                err = ex
+        if first is None:
+            res = ("fail", f"{type(err).__name__}: {err}"[:200] if err else "no 1-gram memo length <= 16", None)
         else:
-            zb = maxlen_with(1, 1)
-            res = (zb, maxlen_with(2, zb + 1) - zb)
+            zb = maxlen_with(1, first)
+            res = (zb, maxlen_with(2, zb + 1) - zb, first)
     except Exception as ex:  # the real rend refused this configuration
-        res = ("fail", f"{type(ex).__name__}: {ex}"[:200])
+        res = ("fail", f"{type(ex).__name__}: {ex}"[:200], None)
     _LAYOUT[key] = res
     return res
 
 
 def nbytes_for(n, code, curt, size, slack=0):
     """A memo byte length that the real rend cuts into exactly n grams (slack bytes short of the maximum)."""
-    zb, nb = layout(code, curt, size)
+    zb, nb, first = layout(code, curt, size)
     if zb == "fail":
         return None
     if n == 1:
-        return max(1, zb - slack)
+        return max(first, zb - slack)
     return zb + (n - 2) * nb + max(1, nb - slack)
 
 
@@ -260,20 +271,31 @@ def make_text(uid, nbytes, rng):
 # ---------------------------------------------------------------------------
 # exception classification
 # ---------------------------------------------------------------------------
+_REAL = {}
+
+
 def innermost_hio(ex):
     tb = ex.__traceback__
     name = "?"
     src = env.SRC + os.sep
     while tb is not None:
-        fn = os.path.realpath(tb.tb_frame.f_code.co_filename)
+        raw = tb.tb_frame.f_code.co_filename
+        fn = _REAL.get(raw)
+        if fn is None:
+            fn = _REAL[raw] = os.path.realpath(raw)
         if fn.startswith(src):
             name = tb.tb_frame.f_code.co_name
         tb = tb.tb_next
     return name
 
 
+def type_name(ex):
+    t = type(ex)
+    return t.__name__ if t.__module__ == "builtins" else f"{t.__module__.split('.')[-1]}.{t.__name__}"
+
+
 def escape_key(ex, prefix="escape"):
-    return f"{prefix}:{type(ex).__name__}:{innermost_hio(ex)}"
+    return f"{prefix}:{type_name(ex)}:{innermost_hio(ex)}"
 
 
 def field_map(code, curt, length):
